@@ -95,6 +95,10 @@ def small_data(r, alphabet=3):
         return {}
     if c < 0.16:
         return {"app": "abcdefgh"[r.randrange(0, alphabet)], "title": r.choice([None, ""])}
+    if c < 0.24:
+        # equal as JSON values, not as text: key order and 3 vs 3.0
+        a = "abcdefgh"[r.randrange(0, alphabet)]
+        return r.choice([{"app": a, "n": 3}, {"n": 3, "app": a}, {"app": a, "n": 3.0}])
     return {"app": "abcdefgh"[r.randrange(0, alphabet)]}
 
 
@@ -120,7 +124,7 @@ def meta(r, wild=True):
     }
     c = r.random()
     if c < 0.5:
-        m["name"] = r.choice(["A name", "nämé", "n", "bucket name with spaces", "007", "2021", "1e3"])
+        m["name"] = r.choice(["A name", "nämé", "n", "bucket name with spaces", "007", "2021", "1e3", "b0", "b1", "ghost", "tmp"])  # some names equal bucket ids
     if r.random() < 0.5:
         m["data"] = {r.choice(_KEYS): json_value(r, 1) for _ in range(r.randrange(1, 3))}
     return m
@@ -128,7 +132,7 @@ def meta(r, wild=True):
 
 BUCKET_IDS = ["b0", "b1", "b2", "b3"]
 UNICODE_BUCKET_IDS = ["aw-watcher-window_Zoë's-laptop", "b/ü#1", "б2", "cafe\u0301 b 3"]  # the last one is not NFC-normalised
-GLOB_BUCKET_IDS = ["scratch[1]", "scratch1", "a?", "ab"]  # ids that read as fnmatch patterns of each other
+GLOB_BUCKET_IDS = ["scratch[1]", "scratch1", "a?", "aw-watcher-window_{hostname}"]  # ids that read as fnmatch patterns of each other
 CASE_BUCKET_IDS = ["aw-watcher-afk_Laptop", "aw-watcher-afk_laptop", "AW-WATCHER-AFK_LAPTOP", "b0"]  # differ only in case
 
 
